@@ -2,7 +2,8 @@ package main
 
 import "verifharness/hlib"
 
-// fixed scenarios: the blocked low-priority sender (open finding 1) in several shapes,
+// fixed scenarios: the parked low-priority wait-forever sender that close must wake (fixed
+// finding 1: before the repair of sendLowTimeout it stayed parked for ever) in several shapes,
 // the stale reply through a recycled message (discipline violated), close behaviour.
 func witnesses(thorough bool) []Scenario {
 	var out []Scenario
@@ -27,13 +28,13 @@ func witnesses(thorough bool) []Scenario {
 		return sc
 	}
 	// no subscriber, low channel filled to capacity, one more Send(msg,false), Client.Close, Queue.Close
-	out = append(out, fillSend("witness-blocked-low", 2, 3, 3, false, false, true))
+	out = append(out, fillSend("witness-low-woken", 2, 3, 3, false, false, true))
 	// the same with the package's real capacities (64 / 40960)
-	out = append(out, fillSend("witness-blocked-low-realcaps", 0, 0, 40960, false, false, true))
+	out = append(out, fillSend("witness-low-woken-realcaps", 0, 0, 40960, false, false, true))
 	// subscriber that does not drain: the pump holds 1 + recv 5
-	out = append(out, fillSend("witness-blocked-low", 2, 3, 9, true, false, true))
-	out = append(out, fillSend("witness-blocked-low", 1, 2, 8, true, true, true))
-	out = append(out, fillSend("witness-blocked-low", 2, 2, 2, false, false, false))
+	out = append(out, fillSend("witness-low-woken", 2, 3, 9, true, false, true))
+	out = append(out, fillSend("witness-low-woken", 1, 2, 8, true, true, true))
+	out = append(out, fillSend("witness-low-woken", 2, 2, 2, false, false, false))
 	// the high-priority wait-forever sender is woken by close (selects on done)
 	out = append(out, Scenario{Kind: "witness-high-woken", Hcap: 1, Lcap: 1, NTopics: 1, NClients: 2, Ops: []Op{
 		{K: "sub", C: 0, T: 0},
@@ -131,7 +132,7 @@ func (g *gen) next(e *exec, v *view) (Op, bool) {
 			t := r.Intn(g.sc.NTopics)
 			hi := r.Chance(3, 5)
 			mode := []int{-1, -1, 0, 1}[r.Intn(4)]
-			if mode == -1 && (len(e.pend) >= 2 || (!hi && kind == "guarded")) {
+			if mode == -1 && len(e.pend) >= 2 {
 				mode = r.Intn(2)
 			}
 			g.queue = append(g.queue, Op{K: "send", C: c, O: g.slot, Hi: hi, Mode: mode})
